@@ -243,6 +243,20 @@ CLAIMED = {
          "(Intel and AMD differ). The fixed-width bit-vector theorems use bv_decide and therefore depend on its _native.bv_decide.ax_* "
          "axioms (listed per theorem in the evidence).",
     technique="differential testing against an executable Lean ISA specification validated on silicon + Lean proofs of the lifter's helpers"),
+ "C02": dict(
+    category="proof",
+    text="MIPS (mips/mipsel): for every register/immediate field and every state, the IL falcon emits for the integer ALU, shifts, "
+         "immediates, lui, slt*, lb/lbu/lh/lhu/lw, sb/sh/sw and for beq/bne/bgez/bgtz/blez/bltz/b/j with any such instruction in the delay "
+         "slot computes exactly the registers, memory and next pc of an interpreter decoding the raw word (Lean theorems "
+         "lift_correct_single, lift_correct_pair over a Lean mirror of the lifter); falcon's emitted IL is compared syntactically with "
+         "the proved mirror on every generated word. All other MIPS classes and PowerPC: three-way differential (falcon executor / Lean IL "
+         "model / Lean ISA interpreter) over the whole accepted opcode space, register-field sweeps and boundary states; the rlwinm mask "
+         "is proved equal to MASK(mb,me).",
+    design_ref="DESIGN.md §6 C02",
+    note="Interpreters transcribed from memory of the MIPS32 and Power ISA manuals (not in the sandbox, no second implementation); "
+         "universality over encodings is proved for the (A) classes only; 11 known findings (link/target evaluated after the delay slot, "
+         "division by zero, misaligned accesses, XER[SO], bdnzl).",
+    technique="Lean 4 refinement proof (mirror of the lifter + ISA interpreter) + executable three-way correspondence"),
 }
 
 checks = []
